@@ -1,0 +1,33 @@
+//go:build verif
+
+package paths
+
+// Contracts for the pathFor helper (C04: no argument makes a built-in helper panic), checked by
+// /verif/bin/plushvc. Comment-only. Safety contracts: every reflect call is made within its
+// documented precondition; what the path text is, is not specified here.
+
+// user code reached through the two interfaces (assumption U1: returns normally)
+//@ iface paths.Pathable.ToPath(x) r
+//@ assigns nothing
+//@ iface paths.Paramable.ToParam(x) r
+//@ assigns nothing
+
+//@ func PathFor
+//@ ensures nilarg: in == nil ==> err != nil
+//@ noframe
+//@ loop 1: invariant 0 <= i && rvValid(rv) && (rvKind(rv) == 23 || rvKind(rv) == 17)
+//@ loop 1: decreases rvLen(rv) - i
+
+// rv.FieldByName(name), with "promoted through a nil embedded pointer" turned into "absent"
+//@ func fieldByName
+//@ requires kind: rvKind(rv) == 25
+//@ ensures absent: rvNilEmbedded(rv, name) ==> !rvValid(result)
+//@ ensures same: !rvNilEmbedded(rv, name) ==> result == rvField(rv, name)
+//@ assigns nothing
+
+//@ func byField
+//@ requires valid: rvValid(f) && rvCanIface(f)
+//@ noframe
+
+//@ func join
+//@ noframe
